@@ -16,7 +16,7 @@ RULE = ("sequences of same-kind scalars (ints, floats, alphabetic strings; ties,
         "distinct with and without inversion; Arrays-of-Hashes and hashes-of-hashes with a shared attribute that is "
         "present, absent, repeated or null, under max(a)/min(a)/unique(a)/distinct(a)/has_child(a) with and without "
         "inversion (values include 0, 0.0, negatives and the empty string; max/min results followed by parent(n) and key "
-        "segments); parent(n) for every node of random documents and n = 1..depth+1 (and no parameter); name() for "
+        "segments); parent(n) after a wildcard over every container's children; parent(n) for every node of random documents and n = 1..depth+1 (and no parameter); name() for "
         "every node. Non-trivial = a collection with >=2 members (resp. a non-root node); distinct by (document, query)")
 ASSUMPTIONS = ["results are compared as multisets of locations: the statement says which members, not in which order",
                "members whose attribute is absent or null take no part in max/min (inverted: they are among the others); "
@@ -28,7 +28,7 @@ REACH = [("yamlpath/common/keywordsearches.py", "has_child,_has_concrete_child",
          ("yamlpath/common/keywordsearches.py", "parent", "parent"),
          ("yamlpath/common/keywordsearches.py", "distinct,unique,_track_seen_value", "distinct/unique")]
 SIZES = {"quick": 400000, "thorough": 4000000}
-REQUIRED_COUNTERS = ["minmax_checked", "unique_distinct_checked", "has_child_checked", "parent_checked", "name_checked", "chain_checked"]
+REQUIRED_COUNTERS = ["minmax_checked", "unique_distinct_checked", "has_child_checked", "parent_checked", "name_checked", "chain_checked", "wildcard_parent_checked"]
 
 WORDS = ["apple", "bob", "cat", "dog", "emu", "fig"]
 
@@ -286,6 +286,29 @@ def check_parent_name(ctx, rng):
                     ctx.violation("parent/wrong-coordinates", {"case": case, "summary": "parentref %r expected %r" % (r.parentref, pr)})
             elif r.parent is not None:
                 ctx.violation("parent/wrong-coordinates", {"case": case, "summary": "root ancestor reported with a parent"})
+        # the same climb from every child reached through a wildcard: each child must be handed its own
+        # coordinates (a keyword that consumes the caller's ancestry in place breaks the next sibling)
+        if isinstance(node, (dict, list)) and not yp.is_set(node) and len(node) >= 1 and rng.random() < 0.6:
+            nchild = len(node)
+            for n in (None, 1, 2, d + 1, d + 2):
+                steps = 1 if n is None else n
+                q = "%s/*[parent(%s)]" % (path, "" if n is None else n)
+                ctx.evaluations += 1
+                ctx.counters["wildcard_parent_checked"] = ctx.counters.get("wildcard_parent_checked", 0) + 1
+                got = run(data, q)
+                case = {"doc": text, "query": q}
+                if got[0] == "CRASH":
+                    ctx.count("crash_handed_to_C15")
+                    continue
+                if steps > d + 1:
+                    if got[0] != "YPE":
+                        ctx.violation("wildcard-then-parent/climbs-above-root", {"case": case, "summary": "children at depth %d, %d steps: %r" % (
+                            d + 1, steps, [repr(r.node)[:30] for r in got[1]])})
+                    continue
+                want_node = (chain + [(node, None)])[d + 1 - steps][0]
+                if got[0] != "OK" or len(got[1]) != nchild or any(r.node is not want_node for r in got[1]):
+                    ctx.violation("wildcard-then-parent/wrong-ancestor", {"case": case, "summary": "%d children, %d steps: got %r" % (
+                        nchild, steps, got[1] if got[0] != "OK" else [(repr(r.node)[:40], str(r.path)) for r in got[1]])})
         # name()
         q = "%s[name()]" % path
         ctx.evaluations += 1
